@@ -225,7 +225,7 @@ func Run() int {
 	}
 	r.Set("exhaustive", exhaustive)
 	r.Set("workers", poolSize)
-	r.Set("rule", "part 1: every history of Transpile calls over the alphabet {P1 scalar, P2 functions+slices+strings, P3 local+std imports, P4, P5, Perr rejected by the parser, Perr rejected late by the emitting stage} x {bash, batch} up to the stated length on ONE transpiler value with a fresh converter per call; every call must return byte-identically what it returns alone in a fresh process; the reachable hidden state (transpiler value + package-level variables) is hashed after every call and searched breadth-first with state deduplication until no new state appears. part 2: every iteration order of every range over a map (all n! for n<=5, rotations+reversal beyond), one or two non-default choice points per execution. part 3: the same tree at relocated places and under relative paths. distinct = distinct history / (program, order assignment) / location; non-trivial = at least two calls, or a non-default order, or a location different from the base.")
+	r.Set("rule", "part 1: every history of Transpile calls over the alphabet {P1 scalar, P2 functions+slices+strings, P3 local+std imports, P4, P5, Perr rejected by the parser, Perr rejected late by the emitting stage, P6 = P3's main next to another library file} x {bash, batch} up to the stated length on ONE transpiler value with a fresh converter per call; every call must return byte-identically what it returns alone in a fresh process; the reachable hidden state (transpiler value + package-level variables) is hashed after every call and searched breadth-first with state deduplication until no new state appears. part 2: every iteration order of every range over a map (all n! for n<=5, rotations+reversal beyond), one or two non-default choice points per execution. part 3: the same tree at relocated places and under relative paths. distinct = distinct history / (program, order assignment) / location; non-trivial = at least two calls, or a non-default order, or a location different from the base.")
 	r.Assumef("hidden state outside the transpiler value and the package-level variables of the repository packages (e.g. inside the Go standard library) is not dumped; it is still exercised by running every history without state deduplication")
 	r.Assumef("map iteration inside the standard library is not owned by the explorer; such call sites are listed under unowned_choice_points (none means none exist in the current tree)")
 	r.Assumef("memory-address- or time-dependent behaviour would escape the search; none exists in the code read")
@@ -343,7 +343,7 @@ func (c *checker) histories() {
 			prev = cur
 		}
 	}
-	maxLen := 3 // 14 calls in the alphabet: 2744 histories of length 3, 38416 of length 4
+	maxLen := 3 // 16 calls in the alphabet: 4096 histories of length 3, 65536 of length 4
 	if r.Thorough() {
 		maxLen = 4
 	}
